@@ -68,8 +68,19 @@ def _crq_subscribe(has_pub):
         sub = SOpaque('subscriber', 'remote-subscriber')
         n = None
         if E.path.choice(2, 'initial_request_n'):
-            n = E.fresh_int('n', 1, 0x7FFFFFFF)
-            E.call(E.getattr(h, 'initial_request_n'), [n])
+            # any value the application may pass: a non-positive one is refused (nothing with such a value ever goes out)
+            n = E.fresh_int('n', -0x80000000, 0x7FFFFFFF)
+            try:
+                E.call(E.getattr(h, 'initial_request_n'), [n])
+            except PyExc as e:
+                E.cover('refused')
+                E.prove('initial_request_n:rejects_only_non_positive', I(n) <= 0)
+                E.prove('initial_request_n:raises_RSocketValueError', e.value.cls.issubclass(E.lookup('rsocket/exceptions.py::RSocketValueError')))
+                E.prove('initial_request_n:a_refused_channel_sends_nothing', not c.emissions())
+                return
+            E.prove('@C08,C06,C01:initial_request_n:a_channel_request_never_carries_a_non_positive_initial_request_n', I(n) >= 1)
+            if not E.decide(mk_bool(I(n) >= 1), 'n-positive'):
+                return
         E.call(E.getattr(h, 'subscribe'), [sub])
         E.cover('subscribed')
         p, data, md = c.payload
